@@ -303,7 +303,7 @@ def run(ctx):
                 name="switch_FixCutout_off", must_pass=False)
     if r.violated is None:
         raise common.MachineryError("cut-out model insensitive to float arithmetic")
-    n = 48 if quick else 600
+    n = 48 if quick else 4000
     with ProcessPoolExecutor(max_workers=16) as pool:
         recs = list(pool.map(observe, [(ctx.seed * 7001 + i, ctx.workdir) for i in range(n)], chunksize=1))
     rejected = validate(ctx, recs, "priorized")
